@@ -68,6 +68,13 @@ CTOR_OWNERSHIP = {
     'optree.OpTree.__init__': 'links to the root node object',
     'bipartite_graph.HopcroftKarp.__init__': '"store a reference to the graph"',
 }
+# ... but the SEQUENCE handed over is converted: the new object links to the elements, never to the caller's list itself
+# (the object appends to / rebuilds its own containers)
+OWNERSHIP_CONTAINERS = {
+    'optree.OpTreeNode.__init__': ['children'],
+    'opgraph.OpGraph.__init__': ['nodes', 'edges', 'nid_terminal'],
+    'autop.AutOp.__init__': ['nodes', 'edges', 'nid_terminal'],
+}
 EXTRA_PUBLIC = ['mps.add_mps', 'mps.local_orthonormalize_left_qr', 'mps.local_orthonormalize_right_qr',
                 'mps.local_orthonormalize_left_svd', 'mps.local_orthonormalize_right_svd',
                 'mpo.add_mpo', 'mpo.multiply_mpo', 'mpo.local_orthonormalize_left_qr',
@@ -161,6 +168,12 @@ def run(chk, repo, tier):
                        'new object can reach ' + ', '.join(sh[:4]) if sh else '', key=f'C19.CTOR|{q}|sharing')
             elif q not in CTOR_OWNERSHIP:
                 unclassified.append(q)
+            if q in OWNERSHIP_CONTAINERS:
+                selfv = res['args']['self']
+                sh = [d for d in shared_with_params(eng, fi, selfv, exclude=('self',)) if d in OWNERSHIP_CONTAINERS[q]]
+                chk.ob('C19.CTOR', where, f'{q} links to the objects handed to it but converts the sequence that holds them (the '
+                       f"caller's list is not the object's list)", not sh, 'the new object holds the caller\'s ' + ', '.join(sh) if sh else '',
+                       key=f'C19.CTOR|{q}|container')
             continue
         if q in INPLACE:
             n_inpl += 1
